@@ -1,5 +1,5 @@
 // C07: fiber_rwlock under the real runtime.
-// 2-3 fibers run scripts over {R rdlock, W wrlock, r tryrdlock, w trywrlock}
+// 2-4 fibers run scripts over {R rdlock, W wrlock, r tryrdlock, w trywrlock}
 // (each followed by the matching unlock when acquired). Oracle: ghost
 // occupancy at every acquisition (at most one writer, a writer never with a
 // reader), the try variants never switch fibers, nobody stays blocked (main
@@ -27,7 +27,7 @@ GHOST static void wr_acq(int id, int t) {
 }
 GHOST static void wr_rel(void) { g_writers--; }
 
-static const char* scripts[][3] = {
+static const char* scripts[][4] = {
     {"W", "R", ""},      // 0
     {"W", "R", "R"},     // 1: batch of readers handed off by the writer
     {"R", "W", "R"},     // 2
@@ -39,6 +39,15 @@ static const char* scripts[][3] = {
     {"y", "W", "R"},     // 8: a reader that yields inside its critical section (third party acts while it holds)
     {"y", "R", "W"},     // 9
     {"z", "R", "W"},     // 10: a writer that yields inside its critical section
+    {"y", "y", "z", "R"},  // 11: two overlapping readers leave together, a writer gets in, a fourth fiber queues behind it
+    {"y", "y", "W", "W"},  // 12
+    {"y", "R", "z", "W"},  // 13
+    {"y", "W", "R", "R"},  // 14
+    {"R", "R", "z", "R"},  // 15
+    {"R", "z", "R", "R"},  // 16
+    {"z", "R", "R", "R"},  // 17
+    {"R", "R", "z", "W"},  // 18
+    {"R", "y", "z", "R"},  // 19
 };
 
 static void* body(void* p) {
@@ -55,6 +64,8 @@ static void* body(void* p) {
       fiber_rwlock_rdlock(&L);
       rd_acq(id, 0);
       fiber_yield();
+      int v = data;  // still inside: a pre-emption point of -focus runs (data is a focus range)
+      (void)v;
       rd_rel();
       fiber_rwlock_rdunlock(&L);
     } else if (*s == 'z') {
@@ -62,6 +73,7 @@ static void* body(void* p) {
       wr_acq(id, 0);
       data = data + 1;
       fiber_yield();
+      data = data + 1;  // still inside after the yield (pre-emption point of -focus runs)
       wr_rel();
       fiber_rwlock_wrunlock(&L);
     } else if (*s == 'W') {
@@ -86,10 +98,12 @@ int harness_main(void) {
   shape = fmc_param("shape", 0);
   rt_start();
   fiber_rwlock_init(&L);
-  fiber_t* f[3];
+  fmc_focus(&L, sizeof L);
+  fmc_focus((void*)&data, sizeof data);
+  fiber_t* f[4];
   int nf = 0;
   fmc_begin();
-  for (; nf < 3 && scripts[shape][nf][0]; nf++) f[nf] = fiber_create(STK, body, (void*)(intptr_t)nf);
+  for (; nf < 4 && scripts[shape][nf] && scripts[shape][nf][0]; nf++) f[nf] = fiber_create(STK, body, (void*)(intptr_t)nf);
   fmc_yield();
   for (int i = 0; i < nf; i++)
     if (fiber_join(f[i], 0) != FIBER_SUCCESS) fmc_fail("rwlock harness: join failed");
